@@ -78,12 +78,15 @@ Modes == {"default", "form_post", "fragment"}
 Errs == {"none", "scope", "state", "rtype"}       \* request errors raised after redirect validation
 
 Rows ==
-  UNION { { [reg |-> reg, omitted |-> FALSE, req |-> q, rtype |-> rt, mode |-> m, err |-> e,
+  UNION { UNION { { [reg |-> reg, omitted |-> FALSE, req |-> q, rtype |-> rt, mode |-> m, err |-> e, public |-> pb,
              allowed |-> Allowed(q, reg), undet |-> Undetermined(q, reg), code_ok |-> SecureForCode(q)] :
-             q \in UNION {Near(reg[i]) : i \in DOMAIN reg} \cup {U("https", "", "evil.example", "", "/cb", "", "")},
-             rt \in RTypes, m \in IF Depth >= 2 THEN {"default"} ELSE Modes, e \in IF Depth >= 2 THEN {"none"} ELSE Errs }
+             rt \in RTypes, m \in IF Depth >= 2 THEN {"default"} ELSE Modes, e \in IF Depth >= 2 THEN {"none"} ELSE Errs,
+             \* the kind of client does not enter any of the rules: a public client (with PKCE) is held to the same transport rule,
+             \* so every plain-http request is also made by a public client
+             pb \in IF q.scheme = "http" THEN BOOLEAN ELSE {FALSE} }
+             : q \in UNION {Near(reg[i]) : i \in DOMAIN reg} \cup {U("https", "", "evil.example", "", "/cb", "", "")} }
           : reg \in RegSets }
-  \cup { [reg |-> reg, omitted |-> TRUE, req |-> U("", "", "", "", "", "", ""), rtype |-> rt, mode |-> "default", err |-> e,
+  \cup { [reg |-> reg, omitted |-> TRUE, req |-> U("", "", "", "", "", "", ""), rtype |-> rt, mode |-> "default", err |-> e, public |-> FALSE,
           allowed |-> Len(reg) = 1 /\ Absolute(reg[1]) /\ reg[1].fragment = "", undet |-> FALSE,
           code_ok |-> Len(reg) = 1 /\ SecureForCode(reg[1])] : reg \in RegSets, rt \in RTypes, e \in Errs }
 
